@@ -64,13 +64,13 @@ def run(res, tier, seed):
     tla, cfg = vlib.wrapper(wd, "GO", "Gen_NameOps", {},
                             ["SPECIFICATION OSpec", "CONSTANTS", "  LabelLens = {0, 1, 61, 62, 63, 64}",
                              f"  MaxOps = {maxops}", "INVARIANT OEmit", "CHECK_DEADLOCK FALSE"])
-    cases, gst = vlib.gen(tla, cfg, wd, workers=8, timeout=2400, heap="12g")
-    if len(cases) < 1000:
+    # (millions of cases in the thorough tier: streamed to the case file, never held in memory)
+    cpath = os.path.join(wd, "ops.ndjson")
+    ncases, gst = vlib.gen_stream(tla, cfg, wd, cpath, workers=8, timeout=2400, heap="12g")
+    if ncases < 1000:
         raise vlib.ToolError("ops generator produced too few cases")
     res.states += gst["distinct"]
     res.transitions += gst["generated"]
-    cpath = os.path.join(wd, "ops.ndjson")
-    vlib.write_ndjson(cpath, cases)
     vpath = os.path.join(wd, "ops.verdicts.ndjson")
     vlib.run_driver("drive_names", ["replay-ops"], stdin_path=cpath, stdout_path=vpath)
     n = 0
@@ -83,7 +83,7 @@ def run(res, tier, seed):
             res.mismatch(v["class"], {"op": v["bad"].get("op", {}).get("op", "?")}, v)
         elif n % 20000 == 11:
             res.sample({"ops": v["digest_src"]}, cap=3)
-    if n != len(cases):
+    if n != ncases:
         raise vlib.ToolError("driver lost cases")
     res.traces += n
     res.exhaustive = True
